@@ -563,7 +563,7 @@ class PropertyRun:
         return getattr(importlib.import_module(mod), name)
 
     def write_replay(self, info):
-        d = os.path.join(VERIF, 'replays')
+        d = os.environ.get('VERIF_REPLAY_DIR') or os.path.join(VERIF, 'replays')
         os.makedirs(d, exist_ok=True)
         n = len(os.listdir(d))
         safe = ''.join(ch if ch.isalnum() else '_' for ch in info.get('obligation', 'bounded'))[:60]
